@@ -313,7 +313,7 @@ class _StubSeg:
         return pd.Series(SymArray([self.value] * len(data)), index=data.index)
 
 
-def route_run(zone, month, which, sym, unable=None):
+def route_run(zone, month, which, sym, unable=None, pzone=None):
     """unable: None, or 0/1 = the own-month model of the first/second hour cannot predict (returns NaN, as a segment model
     does for an hour of the week it never saw): that hour has no prediction - no other month's model may fill in"""
     idx = boundary_index(zone, month, which)
@@ -327,21 +327,22 @@ def route_run(zone, month, which, sym, unable=None):
     model = cm.CalTRACKHourlyModel(models, lk, ob, ub, "three_month_weighted")  # the real class, real feature processor
     idx = pd.date_range(boundary_index(zone, month, "last")[0], periods=2, freq="h")  # last hour of the month and the next one
     temp = pd.Series([50.0, 51.0], index=idx)
-    res = model.predict(idx, temp).result
+    # pzone: the prediction index may name the same instants in another zone; the hour's month is that of the weather series
+    res = model.predict(idx if pzone is None else idx.tz_convert(pzone), temp).result
     own = [[n for n in fit_names if expected_weights("three_month_weighted", t.month)[n] == 1.0][0] for t in idx]
     return res, vals, own, fit_names
 
 
 def replay_route(inp):
     global SymArray
-    res, vals, own, names = _route_concrete(inp["zone"], inp["month"], inp["which"], inp.get("unable"))
+    res, vals, own, names = _route_concrete(inp["zone"], inp["month"], inp["which"], inp.get("unable"), inp.get("pzone"))
     got = [float(x) for x in res["predicted_usage"]]
     want = [vals[o] for o in own]
     same = all((a != a and b != b) or a == b for a, b in zip(got, want)) and len(got) == len(want)
     return not same, f"predictions {got} are not the own-month models' {own}: {want}"
 
 
-def _route_concrete(zone, month, which, unable=None):
+def _route_concrete(zone, month, which, unable=None, pzone=None):
     class _C(_StubSeg):
         def predict(self, data):
             return pd.Series([self.value] * len(data), index=data.index)
@@ -354,7 +355,7 @@ def _route_concrete(zone, month, which, unable=None):
     lk, ob, ub = lookup_frames(1, DEFAULT_BINS, DEFAULT_BINS, names)
     model = cm.CalTRACKHourlyModel([_C(n, vals[n]) for n in names], lk, ob, ub, "three_month_weighted")
     idx = pd.date_range(boundary_index(zone, month, "last")[0], periods=2, freq="h")
-    res = model.predict(idx, pd.Series([50.0, 51.0], index=idx)).result
+    res = model.predict(idx if pzone is None else idx.tz_convert(pzone), pd.Series([50.0, 51.0], index=idx)).result
     own = [[n for n in names if expected_weights("three_month_weighted", t.month)[n] == 1.0][0] for t in idx]
     return res, vals, own, names
 
@@ -366,16 +367,18 @@ def run_route(case, zone):
         month = F.choose("month", list(range(1, 13)))
         which = "last"
         unable = F.choose("unable", [None, 0, 1])
-        return month, which, unable, route_run(zone, month, which, True, unable)
+        pzone = F.choose("pzone", [None, "UTC"]) if zone != "UTC" else F.choose("pzone", [None, "Pacific/Auckland"])
+        return month, which, unable, pzone, route_run(zone, month, which, True, unable, pzone)
 
     paths = case.explore(run)
     for p in paths:
         if p.outcome != "ret":
             case.rep["harness_errors"].append(f"route raised {p.value!r}")
             continue
-        month, which, unable, (res, vals, own, names) = p.value
+        month, which, unable, pzone, (res, vals, own, names) = p.value
         got = cells(res["predicted_usage"])
-        rp = ("route", (lambda a, b, u: lambda mdl: dict(zone=zone, month=a, which=b, unable=u))(month, which, unable))
+        rp = ("route", (lambda a, b, u, z: lambda mdl: dict(zone=zone, month=a, which=b, unable=u, pzone=z))(month, which, unable, pzone))
+        case.regime("prediction index in another zone than the weather series", pzone is not None)
         nan_own = [isinstance(vals[o], float) and vals[o] != vals[o] for o in own]
         ok = len(got) == 2 and all((is_nan(g) if nn else isinstance(g, SReal)) for g, nn in zip(got, nan_own))
         case.prove(p, z3.And(*[to_real(lift(g)) == lift(vals[o]) for g, o, nn in zip(got, own, nan_own) if not nn]) if ok else False,
